@@ -186,6 +186,8 @@ def run(report, replay=None):
     # long random histories over a larger alphabet, seeded random walks over LightDir's actions
     campaign(report, 4, 3, 2, 2, 12, simulate=4000 if thorough else 400, label='random-walk depth 12 over 4 names x 3 groups x 2 locations')
     campaign(report, 3, 2, 2, 1, 8, simulate=3000 if thorough else 300, label='random-walk depth 8 over 3 names x 2 groups x 2 locations')
+    # a configured age of zero is a configured age: whatever was not seen in this very refresh expires
+    campaign(report, 3, 2, 2, 0, 8, simulate=1500 if thorough else 200, label='random-walk depth 8, configured age 0')
     report.coverage['exhaustive'] = True
     report.coverage['rule'] = 'one record per history replayed into a real LightSet; all getters compared after every step'
     report.assumptions += ['virtual time replaces time.time in bardolph.controller.light', 'devices are SimLan objects']
